@@ -507,6 +507,10 @@ fn special_lines(run: &mut Run, lines: &mut PpLines, rng: &mut Rng) {
         };
         let x = if rng.chance(1, 3) { -mag } else { mag };
         lines.push(run, "pp-erf", "grid", format!("PP erf {}", hexf(x)), format!("erf={}", showf(sp::erf(x))));
+        // `ErfFacts` (hypothesis of the taiko/osu! theorems), sampled: erf > 0 on (0, inf)
+        if x > 0.0 && !(sp::erf(x) > 0.0) {
+            run.fail("oracle:erf-sign", "", "pp-erf", format!("erf({x:?}) = {:?} is not positive", sp::erf(x)), format!("verif_special::erf({x:?})"));
+        }
         if let Some(x) = xs.pop() {
             lines.push(run, "pp-erf", "grid", format!("PP erf {}", hexf(x)), format!("erf={}", showf(sp::erf(x))));
         }
@@ -527,6 +531,10 @@ fn special_lines(run: &mut Run, lines: &mut PpLines, rng: &mut Rng) {
             _ => uni(rng, -1.0, 1.0),
         };
         lines.push(run, "pp-erfinv", "grid", format!("PP erfinv {}", hexf(z)), format!("erfinv={}", showf(sp::erf_inv(z))));
+        // `ErfFacts`, sampled: erf_inv > 0 (and finite) on (0, 1)
+        if z > 0.0 && z < 1.0 && !(sp::erf_inv(z) > 0.0 && sp::erf_inv(z).is_finite()) {
+            run.fail("oracle:erf-inv-sign", "", "pp-erfinv", format!("erf_inv({z:?}) = {:?} is not positive and finite", sp::erf_inv(z)), format!("verif_special::erf_inv({z:?})"));
+        }
         if let Some(z) = zs.pop() {
             lines.push(run, "pp-erfinv", "grid", format!("PP erfinv {}", hexf(z)), format!("erfinv={}", showf(sp::erf_inv(z))));
         }
